@@ -149,7 +149,7 @@ std::vector<Probe> build_probes(World& w)
         }
         // every field setter with every value of the C06 alphabet ...
         for (auto& f : fields())
-            for (size_t v = 0; v < f.values.size(); ++v)
+            for (size_t v = 0; f.has_setter && v < f.values.size(); ++v)
                 add("track::set_" + f.name, [t, &f, v](World& w) { f.values[v].set(w.tracks[t]); (void)w.tracks[t].snapshot(); });
         // ... and with extreme ones
         add("track::set_beatgrid(single marker)", [t](World& w) { w.tracks[t].set_beatgrid({{0, 5.0}}); (void)w.tracks[t].snapshot(); });
